@@ -406,17 +406,19 @@ Qed.
 
 Lemma cw_chain l : forall c cur, chain_from (fst (commit_walk l c)) cur = chain_from l cur.
 Proof.
-  induction l as [|t0 rest IH]; intros [c|] cur; cbn [commit_walk fst]; try reflexivity.
-  - now destruct cur.
-  - destruct (Nat.eqb c (length rest)).
-    + pose proof (IH (t_parent t0)) as IHc. pose proof (cw_length rest (t_parent t0)) as Hlen.
-      destruct (commit_walk rest (t_parent t0)) as [rest' js]. cbn [fst] in *.
-      destruct cur as [k|]; [|reflexivity]. cbn [chain_from]. rewrite Hlen.
-      destruct (Nat.eqb k (length rest)); cbn; now rewrite IHc.
-    + pose proof (IH (Some c)) as IHc. pose proof (cw_length rest (Some c)) as Hlen.
-      destruct (commit_walk rest (Some c)) as [rest' js]. cbn [fst] in *.
-      destruct cur as [k|]; [|reflexivity]. cbn [chain_from]. rewrite Hlen.
-      destruct (Nat.eqb k (length rest)); now rewrite IHc.
+  induction l as [|t0 rest IH]; intros c cur.
+  { destruct c; reflexivity. }
+  destruct c as [c|]; [|reflexivity].
+  cbn [commit_walk].
+  destruct (Nat.eqb c (length rest)).
+  - pose proof (IH (t_parent t0)) as IHc. pose proof (cw_length rest (t_parent t0)) as Hlen.
+    destruct (commit_walk rest (t_parent t0)) as [rest' js]. cbn [fst] in *.
+    destruct cur as [k|]; [|reflexivity]. cbn [chain_from]. rewrite Hlen.
+    destruct (Nat.eqb k (length rest)); cbn; now rewrite IHc.
+  - pose proof (IH (Some c)) as IHc. pose proof (cw_length rest (Some c)) as Hlen.
+    destruct (commit_walk rest (Some c)) as [rest' js]. cbn [fst] in *.
+    destruct cur as [k|]; [|reflexivity]. cbn [chain_from]. rewrite Hlen.
+    destruct (Nat.eqb k (length rest)); now rewrite IHc.
 Qed.
 
 Lemma on_path_start l : forall t tk, get l t = Some tk -> on_path l (Some t) t = true.
@@ -436,10 +438,469 @@ Qed.
 
 (* the path follows parent pointers *)
 Lemma on_path_parent l : forall cur k tk p,
-  on_path l cur k = true -> get l k = Some tk -> t_parent tk = Some p ->
-  (forall c, cur = Some c -> forall tc q, get l c = Some tc -> t_parent tc = Some q -> (q < c)%nat) ->
-  (forall tk' q, In tk' l -> True) ->
-  (p < k)%nat ->
+  on_path l cur k = true -> get l k = Some tk -> t_parent tk = Some p -> (p < k)%nat ->
   on_path l cur p = true.
 Proof.
-Abort.
+  induction l as [|t0 rest IH]; intros cur k tk p Hon Hg Hp Hlt; [discriminate|].
+  destruct cur as [c|]; [|discriminate]. cbn [on_path] in *. cbn [get] in Hg.
+  destruct (Nat.eqb_spec c (length rest)) as [->|Hc].
+  - apply orb_true_iff in Hon. apply orb_true_iff. destruct Hon as [Hon|Hon].
+    + apply Nat.eqb_eq in Hon. subst k. rewrite Nat.eqb_refl in Hg.
+      assert (t0 = tk) by congruence. subst t0. right. rewrite Hp.
+      destruct (get_some rest p Hlt) as [tp Htp]. now apply (on_path_start rest p tp).
+    + right. pose proof (on_path_lt _ _ _ Hon) as Hk.
+      destruct (Nat.eqb_spec k (length rest)); [lia|]. now apply (IH _ k tk p).
+  - pose proof (on_path_lt _ _ _ Hon) as Hk.
+    destruct (Nat.eqb_spec k (length rest)); [lia|]. now apply (IH _ k tk p).
+Qed.
+
+Lemma cw_jobs_in l : forall cur k tk,
+  on_path l cur k = true -> get l k = Some tk -> t_open tk = true ->
+  In (list_of tk) (snd (commit_walk l cur)).
+Proof.
+  induction l as [|t0 rest IH]; intros cur k tk Hon Hg Ho; [discriminate|].
+  destruct cur as [c|]; [|discriminate]. cbn [on_path commit_walk] in *. cbn [get] in Hg.
+  destruct (Nat.eqb_spec c (length rest)) as [->|Hc].
+  - pose proof (IH (t_parent t0) k tk) as IHk.
+    destruct (commit_walk rest (t_parent t0)) as [rest' js]. cbn [snd] in *.
+    apply orb_true_iff in Hon. destruct Hon as [Hon|Hon].
+    + apply Nat.eqb_eq in Hon. subst k. rewrite Nat.eqb_refl in Hg.
+      assert (t0 = tk) by congruence. subst t0. rewrite Ho. now left.
+    + pose proof (on_path_lt _ _ _ Hon) as Hk.
+      destruct (Nat.eqb_spec k (length rest)); [lia|].
+      destruct (t_open t0); [right|]; now apply IHk.
+  - pose proof (IH (Some c) k tk) as IHk.
+    destruct (commit_walk rest (Some c)) as [rest' js]. cbn [snd] in *.
+    pose proof (on_path_lt _ _ _ Hon) as Hk.
+    destruct (Nat.eqb_spec k (length rest)); [lia|]. now apply IHk.
+Qed.
+
+Lemma cw_jobs_from l : forall cur L,
+  In L (snd (commit_walk l cur)) -> exists k tk, get l k = Some tk /\ L = list_of tk.
+Proof.
+  induction l as [|t0 rest IH]; intros cur L H.
+  { destruct cur; destruct H. }
+  destruct cur as [c|]; [|destruct H]. cbn [commit_walk] in H.
+  destruct (Nat.eqb_spec c (length rest)) as [->|Hc].
+  - pose proof (IH (t_parent t0) L) as IHk.
+    destruct (commit_walk rest (t_parent t0)) as [rest' js]. cbn [snd] in *.
+    assert (Hin : L = list_of t0 \/ In L js) by (destruct (t_open t0); [destruct H; auto|auto]).
+    destruct Hin as [->|Hin].
+    + exists (length rest), t0. split; [apply get_cons_eq|reflexivity].
+    + destruct (IHk Hin) as (k & tk & Hg & ->). exists k, tk. split; [|reflexivity].
+      rewrite get_cons_ne; [assumption|]. apply get_lt in Hg. lia.
+  - pose proof (IH (Some c) L) as IHk.
+    destruct (commit_walk rest (Some c)) as [rest' js]. cbn [snd] in *.
+    destruct (IHk H) as (k & tk & Hg & ->). exists k, tk. split; [|reflexivity].
+    rewrite get_cons_ne; [assumption|]. apply get_lt in Hg. lia.
+Qed.
+
+(* ------------------------------------------------------------------ *)
+(* D. the invariant                                                    *)
+(* ------------------------------------------------------------------ *)
+
+Section Hist.
+Variable tsof : N -> Z.
+Variable gof : N -> bool.
+Variable v : variant.
+Hypothesis Hv : sound_variant v.
+
+(* what validation guarantees about a recorded id, as far as the lookup needs it *)
+Definition tx_ok (tk : tracker) (X : N) : Prop :=
+  tsof X <= t_ts tk + t_th tk /\
+  skip_own v (tsof X) (t_ts tk + t_th tk) = false /\
+  gof X = t_grp tk /\ t_ts tk <> 0.
+
+Record ginv (l : list tracker) (m : manager) : Prop := {
+  gi_bound : forall k tk p, get l k = Some tk -> t_gparent tk = Some p -> (p < k)%nat;
+  gi_par : forall k tk p, get l k = Some tk -> t_parent tk = Some p -> t_gparent tk = Some p;
+  gi_closed : forall k tk, get l k = Some tk -> t_open tk = false -> t_parent tk = None;
+  gi_anc : forall k tk p tp, get l k = Some tk -> t_parent tk = None ->
+             t_gparent tk = Some p -> get l p = Some tp -> t_open tp = false;
+  gi_ok : forall k tk X, get l k = Some tk -> In X (t_ids tk) -> tx_ok tk X;
+  gi_grp : forall k tk p tp, get l k = Some tk -> t_gparent tk = Some p ->
+             get l p = Some tp -> t_grp tp = t_grp tk;
+  gi_minv : forall k tk X, get l k = Some tk -> t_open tk = false -> In X (t_ids tk) ->
+             minv tsof gof m X;
+  gi_nodup : forall k, NoDup (chain_from l (Some k));
+  gi_cinv : cinv tsof gof m }.
+
+Definition closed_at (l : list tracker) (gp : option nat) : Prop :=
+  forall p tp, gp = Some p -> get l p = Some tp -> t_open tp = false.
+Definition grp_at (l : list tracker) (gp : option nat) (g : bool) : Prop :=
+  forall p tp, gp = Some p -> get l p = Some tp -> t_grp tp = g.
+
+Lemma closed_chain l m : ginv l m -> forall n gp g X,
+  (forall p, gp = Some p -> (p < n)%nat) -> closed_at l gp -> grp_at l gp g ->
+  In X (chain_from l gp) -> minv tsof gof m X /\ gof X = g.
+Proof.
+  intros GI. induction n as [|n IH]; intros gp g X Hb Hc Hg HX.
+  - destruct gp as [p|]; [specialize (Hb p eq_refl); lia|destruct l; destruct HX].
+  - destruct gp as [k|]; [|destruct l; destruct HX].
+    destruct (get l k) as [tk|] eqn:Ek; [|rewrite (chain_none l k Ek) in HX; destruct HX].
+    pose proof (Hc k tk eq_refl Ek) as Hcl.
+    pose proof (gi_closed _ _ GI k tk Ek Hcl) as Hpar.
+    rewrite (chain_unfold l k tk Ek) in HX by (intros p Hp; exact (gi_bound _ _ GI k tk p Ek Hp)).
+    apply in_app_iff in HX. destruct HX as [HX|HX].
+    + split; [exact (gi_minv _ _ GI k tk X Ek Hcl HX)|].
+      destruct (gi_ok _ _ GI k tk X Ek HX) as (_ & _ & Hgo & _).
+      rewrite Hgo. exact (Hg k tk eq_refl Ek).
+    + apply (IH (t_gparent tk) g X); [| | |exact HX].
+      * intros p Hp. pose proof (gi_bound _ _ GI k tk p Ek Hp). specialize (Hb k eq_refl). lia.
+      * intros p tp Hp Htp. exact (gi_anc _ _ GI k tk p tp Ek Hpar Hp Htp).
+      * intros p tp Hp Htp. rewrite (gi_grp _ _ GI k tk p tp Ek Hp Htp). exact (Hg k tk eq_refl Ek).
+Qed.
+
+(* the lookup never answers "absent" for an id recorded on the chain *)
+Lemma has_sound l m : ginv l m -> forall n r gp g X,
+  (forall p, gp = Some p -> (p < n)%nat) ->
+  (r = gp \/ (r = None /\ closed_at l gp)) -> grp_at l gp g ->
+  In X (chain_from l gp) -> has_from v m l r g X (tsof X) <> Some false.
+Proof.
+  intros GI. induction n as [|n IH]; intros r gp g X Hb Hl Hg HX.
+  - destruct gp as [p|]; [specialize (Hb p eq_refl); lia|destruct l; destruct HX].
+  - destruct Hl as [->|[-> Hc]].
+    2:{ destruct (closed_chain l m GI (S n) gp g X Hb Hc Hg HX) as [Hm Hgo].
+        assert (E : has_from v m l None g X (tsof X) = Some (manager_has_v v m g X (tsof X)))
+          by (destruct l; reflexivity).
+        rewrite E, (manager_has_true tsof gof v Hv m g X Hm Hgo). discriminate. }
+    destruct gp as [k|]; [|destruct l; destruct HX].
+    destruct (get l k) as [tk|] eqn:Ek; [|rewrite (chain_none l k Ek) in HX; destruct HX].
+    assert (Hbk : forall p, t_gparent tk = Some p -> (p < k)%nat)
+      by (intros p Hp; exact (gi_bound _ _ GI k tk p Ek Hp)).
+    rewrite (has_unfold v m l k tk g X (tsof X) Ek)
+      by (intros p Hp; apply Hbk; exact (gi_par _ _ GI k tk p Ek Hp)).
+    rewrite (chain_unfold l k tk Ek Hbk) in HX.
+    assert (Hup : In X (chain_from l (t_gparent tk)) ->
+                  has_from v m l (t_parent tk) (t_grp tk) X (tsof X) <> Some false).
+    { intro HX'. apply (IH (t_parent tk) (t_gparent tk) (t_grp tk) X); [| | |exact HX'].
+      - intros p Hp. pose proof (Hbk p Hp). specialize (Hb k eq_refl). lia.
+      - destruct (t_parent tk) as [q|] eqn:Eq.
+        + left. symmetry. exact (gi_par _ _ GI k tk q Ek Eq).
+        + right. split; [reflexivity|]. intros p tp Hp Htp.
+          exact (gi_anc _ _ GI k tk p tp Ek Eq Hp Htp).
+      - intros p tp Hp Htp. exact (gi_grp _ _ GI k tk p tp Ek Hp Htp). }
+    rewrite (sound_early v Hv).
+    apply in_app_iff in HX. destruct HX as [HX|HX].
+    + destruct (gi_ok _ _ GI k tk X Ek HX) as (_ & Hsk & Hgo & _).
+      rewrite Hsk. destruct (t_open tk) eqn:Eo.
+      * assert (Em : mem X (t_ids tk) = true) by now apply mem_In.
+        rewrite Em. cbn. discriminate.
+      * cbn [andb]. rewrite (gi_closed _ _ GI k tk Ek Eo).
+        assert (E : has_from v m l None (t_grp tk) X (tsof X)
+                    = Some (manager_has_v v m (t_grp tk) X (tsof X))) by (destruct l; reflexivity).
+        rewrite E, (manager_has_true tsof gof v Hv m (t_grp tk) X
+                      (gi_minv _ _ GI k tk X Ek Eo HX) Hgo). discriminate.
+    + destruct (skip_own v (tsof X) (t_ts tk + t_th tk)); [now apply Hup|].
+      destruct (t_open tk && mem X (t_ids tk)); [discriminate|now apply Hup].
+Qed.
+
+(* ---- validity of a history ---- *)
+
+Definition valid_op (win : Z -> Z -> Z -> Prop) (st : state) (o : op) : Prop :=
+  match o with
+  | OAdd t txs force =>
+      force = false /\ leaf (s_trk st) t /\
+      forall tk, get (s_trk st) t = Some tk -> forall p, In p txs ->
+        snd p = tsof (fst p) /\ gof (fst p) = t_grp tk /\ t_ts tk <> 0 /\
+        win (t_ts tk) (t_th tk) (snd p)
+  | _ => True
+  end.
+
+Fixpoint hist_ok (win : Z -> Z -> Z -> Prop) (st : state) (h : list op) : Prop :=
+  match h with
+  | [] => True
+  | o :: r => valid_op win st o /\ hist_ok win (fst (step_v v st o)) r
+  end.
+
+Definition win_ok (win : Z -> Z -> Z -> Prop) : Prop :=
+  forall bts th ts, win bts th ts -> ts <= bts + th /\ skip_own v ts (bts + th) = false.
+
+(* ---- Add ---- *)
+
+Ltac add_nil := exists []; rewrite app_nil_r; split; [reflexivity|split; [auto|intros ? []]].
+
+Lemma add_loop_spec st tk txs : forall acc cnt ids cnt' cls,
+  (forall p, In p txs -> snd p = tsof (fst p)) ->
+  add_loop v st tk false txs acc cnt = (ids, cnt', cls) ->
+  exists added, ids = acc ++ added /\ (NoDup acc -> NoDup ids) /\
+    forall X, In X added -> In (X, tsof X) txs /\ parent_has_v v st tk X (tsof X) = Some false.
+Proof.
+  induction txs as [|[id ts] r IH]; cbn [add_loop]; intros acc cnt ids cnt' cls Hts E.
+  - inversion E; subst. add_nil.
+  - assert (Hid : ts = tsof id) by (apply (Hts (id, ts)); now left).
+    assert (Hts' : forall p, In p r -> snd p = tsof (fst p)) by (intros p Hp; apply Hts; now right).
+    destruct (mem id acc) eqn:Em.
+    { inversion E; subst. add_nil. }
+    cbn [negb] in E.
+    destruct (parent_has_v v st tk id ts) as [[|]|] eqn:Eh;
+      try (inversion E; subst; add_nil).
+    destruct (IH _ _ _ _ _ Hts' E) as (added & -> & Hnd & Hadd).
+    exists (id :: added). rewrite <- app_assoc. split; [reflexivity|]. split.
+    + intro Ha. apply Hnd. apply NoDup_snoc; [assumption|now apply mem_false].
+    + intros X [<-|HX].
+      * split; [left; now rewrite Hid|now rewrite <- Hid].
+      * destruct (Hadd X HX). split; [now right|assumption].
+Qed.
+
+Lemma get_upd_inv l t f k tk' :
+  get (upd l t f) k = Some tk' ->
+  (k = t /\ exists tk, get l t = Some tk /\ tk' = f tk) \/ (k <> t /\ get l k = Some tk').
+Proof.
+  rewrite get_upd. destruct (Nat.eqb_spec k t) as [->|Hne]; intro H.
+  - left. split; [reflexivity|]. destruct (get l t) as [tk|]; [|discriminate].
+    exists tk. split; [reflexivity|]. cbn in H. congruence.
+  - right. now split.
+Qed.
+
+Lemma ginv_add l m t tk ids :
+  ginv l m -> get l t = Some tk -> t_open tk = true -> leaf l t ->
+  (forall X, In X ids -> tx_ok tk X) ->
+  NoDup (ids ++ chain_from l (t_gparent tk)) ->
+  ginv (upd l t (set_ids ids)) m.
+Proof.
+  intros GI Ht Ho Hleaf Hok Hnd.
+  assert (Hshape : forall k tk', get (upd l t (set_ids ids)) k = Some tk' ->
+            exists tk0, get l k = Some tk0 /\ t_grp tk' = t_grp tk0 /\ t_ts tk' = t_ts tk0 /\
+              t_th tk' = t_th tk0 /\ t_open tk' = t_open tk0 /\ t_parent tk' = t_parent tk0 /\
+              t_gparent tk' = t_gparent tk0 /\ (k <> t -> tk' = tk0) /\
+              (k = t -> t_ids tk' = ids /\ tk0 = tk)).
+  { intros k tk' H. apply get_upd_inv in H. destruct H as [[-> (tk0 & H0 & ->)]|[Hne H]].
+    - exists tk0. cbn. repeat split; auto; try congruence.
+    - exists tk'. repeat split; auto; congruence. }
+  constructor.
+  - intros k tk' p H Hp. destruct (Hshape k tk' H) as (tk0 & H0 & _ & _ & _ & _ & _ & Eg & _).
+    rewrite Eg in Hp. exact (gi_bound _ _ GI k tk0 p H0 Hp).
+  - intros k tk' p H Hp. destruct (Hshape k tk' H) as (tk0 & H0 & _ & _ & _ & _ & Ep & Eg & _).
+    rewrite Ep in Hp. rewrite Eg. exact (gi_par _ _ GI k tk0 p H0 Hp).
+  - intros k tk' H Hc. destruct (Hshape k tk' H) as (tk0 & H0 & _ & _ & _ & Eo & Ep & _).
+    rewrite Ep. rewrite Eo in Hc. exact (gi_closed _ _ GI k tk0 H0 Hc).
+  - intros k tk' p tp' H Hpar Hgp Hp.
+    destruct (Hshape k tk' H) as (tk0 & H0 & _ & _ & _ & _ & Ep & Eg & _).
+    destruct (Hshape p tp' Hp) as (tp0 & Hp0 & _ & _ & _ & Eo' & _).
+    rewrite Eo'. rewrite Ep in Hpar. rewrite Eg in Hgp.
+    exact (gi_anc _ _ GI k tk0 p tp0 H0 Hpar Hgp Hp0).
+  - intros k tk' X H HX.
+    destruct (Hshape k tk' H) as (tk0 & H0 & Egr & Ets & Eth & _ & _ & _ & Hne & Heq).
+    destruct (Nat.eq_dec k t) as [->|Hkt].
+    + destruct (Heq eq_refl) as [Ei ->]. rewrite Ei in HX.
+      unfold tx_ok. rewrite Egr, Ets, Eth. exact (Hok X HX).
+    + rewrite (Hne Hkt) in *. exact (gi_ok _ _ GI k tk0 X H0 HX).
+  - intros k tk' p tp' H Hgp Hp.
+    destruct (Hshape k tk' H) as (tk0 & H0 & Egr & _ & _ & _ & _ & Eg & _).
+    destruct (Hshape p tp' Hp) as (tp0 & Hp0 & Egr' & _).
+    rewrite Egr, Egr'. rewrite Eg in Hgp. exact (gi_grp _ _ GI k tk0 p tp0 H0 Hgp Hp0).
+  - intros k tk' X H Hc HX.
+    destruct (Hshape k tk' H) as (tk0 & H0 & _ & _ & _ & Eo & _ & _ & Hne & Heq).
+    destruct (Nat.eq_dec k t) as [->|Hkt].
+    + destruct (Heq eq_refl) as [_ ->]. congruence.
+    + rewrite (Hne Hkt) in *. exact (gi_minv _ _ GI k tk0 X H0 Hc HX).
+  - intros k. destruct (Nat.eq_dec k t) as [->|Hkt].
+    + assert (Hg' : get (upd l t (set_ids ids)) t = Some (set_ids ids tk))
+        by (rewrite get_upd, Nat.eqb_refl, Ht; reflexivity).
+      rewrite (chain_unfold _ t _ Hg') by (cbn; intros p Hp; exact (gi_bound _ _ GI t tk p Ht Hp)).
+      cbn [t_ids t_gparent set_ids].
+      rewrite chain_upd_leaf; [exact Hnd|exact Hleaf|].
+      intro E. pose proof (gi_bound _ _ GI t tk t Ht E). lia.
+    + rewrite chain_upd_leaf; [exact (gi_nodup _ _ GI k)|exact Hleaf|congruence].
+  - exact (gi_cinv _ _ GI).
+Qed.
+
+(* ---- New ---- *)
+
+Lemma get_push tn l k tk :
+  get (tn :: l) k = Some tk ->
+  (k = length l /\ tk = tn) \/ ((k < length l)%nat /\ get l k = Some tk).
+Proof.
+  cbn. destruct (Nat.eqb_spec k (length l)); intro H.
+  - left. split; congruence.
+  - right. split; [now apply get_lt in H|assumption].
+Qed.
+
+Lemma ginv_push l m tn :
+  ginv l m ->
+  t_ids tn = [] -> t_open tn = true ->
+  (forall p, t_gparent tn = Some p -> exists tp, get l p = Some tp /\ t_grp tp = t_grp tn /\
+        (t_parent tn = None -> t_open tp = false)) ->
+  (forall p, t_parent tn = Some p -> t_gparent tn = Some p) ->
+  ginv (tn :: l) m.
+Proof.
+  intros GI Hids Hopen Hgp Hpar.
+  assert (Hold : forall k tk p, (k < length l)%nat -> get l k = Some tk -> t_gparent tk = Some p ->
+                   get (tn :: l) p = get l p).
+  { intros k tk p Hk H Hp. apply get_cons_ne. pose proof (gi_bound _ _ GI k tk p H Hp). lia. }
+  constructor.
+  - intros k tk p H Hp. destruct (get_push _ _ _ _ H) as [[-> ->]|[Hk H0]].
+    + destruct (Hgp p Hp) as (tp & Htp & _). now apply get_lt in Htp.
+    + exact (gi_bound _ _ GI k tk p H0 Hp).
+  - intros k tk p H Hp. destruct (get_push _ _ _ _ H) as [[-> ->]|[Hk H0]].
+    + now apply Hpar.
+    + exact (gi_par _ _ GI k tk p H0 Hp).
+  - intros k tk H Hc. destruct (get_push _ _ _ _ H) as [[-> ->]|[Hk H0]].
+    + congruence.
+    + exact (gi_closed _ _ GI k tk H0 Hc).
+  - intros k tk p tp H Hpn Hp Htp. destruct (get_push _ _ _ _ H) as [[-> ->]|[Hk H0]].
+    + destruct (Hgp p Hp) as (tp0 & Htp0 & _ & Hcl).
+      rewrite get_cons_ne in Htp by (apply get_lt in Htp0; lia).
+      assert (tp = tp0) by congruence. subst. now apply Hcl.
+    + rewrite (Hold k tk p Hk H0 Hp) in Htp. exact (gi_anc _ _ GI k tk p tp H0 Hpn Hp Htp).
+  - intros k tk X H HX. destruct (get_push _ _ _ _ H) as [[-> ->]|[Hk H0]].
+    + rewrite Hids in HX. destruct HX.
+    + exact (gi_ok _ _ GI k tk X H0 HX).
+  - intros k tk p tp H Hp Htp. destruct (get_push _ _ _ _ H) as [[-> ->]|[Hk H0]].
+    + destruct (Hgp p Hp) as (tp0 & Htp0 & Hg0 & _).
+      rewrite get_cons_ne in Htp by (apply get_lt in Htp0; lia).
+      assert (tp = tp0) by congruence. now subst.
+    + rewrite (Hold k tk p Hk H0 Hp) in Htp. exact (gi_grp _ _ GI k tk p tp H0 Hp Htp).
+  - intros k tk X H Hc HX. destruct (get_push _ _ _ _ H) as [[-> ->]|[Hk H0]].
+    + congruence.
+    + exact (gi_minv _ _ GI k tk X H0 Hc HX).
+  - intros k. cbn [chain_from]. destruct (Nat.eqb_spec k (length l)).
+    + rewrite Hids. cbn. destruct (t_gparent tn) as [p|]; [exact (gi_nodup _ _ GI p)|].
+      destruct l; constructor.
+    + exact (gi_nodup _ _ GI k).
+  - exact (gi_cinv _ _ GI).
+Qed.
+
+(* ---- Commit ---- *)
+
+Lemma ginv_commit l m t tk :
+  ginv l m -> get l t = Some tk ->
+  ginv (fst (commit_walk l (Some t))) (fold_left commit_list (rev (snd (commit_walk l (Some t)))) m).
+Proof.
+  intros GI Ht.
+  set (l' := fst (commit_walk l (Some t))).
+  set (js := snd (commit_walk l (Some t))).
+  set (m' := fold_left commit_list (rev js) m).
+  assert (Hjs : forall L, In L (rev js) -> list_ok tsof gof (l_grp L) L).
+  { intros L HL. apply in_rev in HL. destruct (cw_jobs_from l (Some t) L HL) as (k & tk0 & Hk & ->).
+    intros Y HY. cbn in HY |- *. destruct (gi_ok _ _ GI k tk0 Y Hk HY) as (H1 & _ & H3 & H4). auto. }
+  destruct (commit_fold_inv tsof gof (rev js) m (gi_cinv _ _ GI) Hjs) as (Hc' & Hmono & Hnew).
+  fold m' in Hc', Hmono, Hnew.
+  assert (Hshape : forall k tk', get l' k = Some tk' ->
+            exists tk0, get l k = Some tk0 /\ tk' = if on_path l (Some t) k then close tk0 else tk0).
+  { intros k tk' H. unfold l' in H. rewrite cw_get in H.
+    destruct (get l k) as [tk0|]; [|discriminate]. exists tk0. cbn in H. split; congruence. }
+  assert (Hsame : forall (b : bool) tk0, t_grp (if b then close tk0 else tk0) = t_grp tk0 /\
+            t_ts (if b then close tk0 else tk0) = t_ts tk0 /\
+            t_th (if b then close tk0 else tk0) = t_th tk0 /\
+            t_ids (if b then close tk0 else tk0) = t_ids tk0 /\
+            t_gparent (if b then close tk0 else tk0) = t_gparent tk0).
+  { intros [|] tk0; cbn; auto. }
+  assert (Hcl : forall p tp', get l' p = Some tp' ->
+            forall tp0, get l p = Some tp0 -> t_open tp0 = false -> t_open tp' = false).
+  { intros p tp' Hp tp0 Hp0 Ho. destruct (Hshape p tp' Hp) as (tp1 & Hp1 & ->).
+    assert (tp1 = tp0) by congruence. subst. now destruct (on_path l (Some t) p). }
+  constructor.
+  - intros k tk' p H Hp. destruct (Hshape k tk' H) as (tk0 & H0 & ->).
+    destruct (Hsame (on_path l (Some t) k) tk0) as (_ & _ & _ & _ & Eg). rewrite Eg in Hp.
+    exact (gi_bound _ _ GI k tk0 p H0 Hp).
+  - intros k tk' p H Hp. destruct (Hshape k tk' H) as (tk0 & H0 & ->).
+    destruct (on_path l (Some t) k); [discriminate|]. exact (gi_par _ _ GI k tk0 p H0 Hp).
+  - intros k tk' H Hc. destruct (Hshape k tk' H) as (tk0 & H0 & ->).
+    destruct (on_path l (Some t) k); [reflexivity|]. exact (gi_closed _ _ GI k tk0 H0 Hc).
+  - intros k tk' p tp' H Hpar Hgp Hp. destruct (Hshape k tk' H) as (tk0 & H0 & ->).
+    destruct (Hsame (on_path l (Some t) k) tk0) as (_ & _ & _ & _ & Eg). rewrite Eg in Hgp.
+    destruct (t_parent tk0) as [q|] eqn:Eq.
+    + (* was linked: then k is on the path and so is its parent *)
+      destruct (on_path l (Some t) k) eqn:Eon; [|congruence].
+      pose proof (gi_par _ _ GI k tk0 q H0 Eq) as Egq.
+      assert (q = p) by congruence. subst q.
+      pose proof (gi_bound _ _ GI k tk0 p H0 Hgp) as Hlt.
+      pose proof (on_path_parent l (Some t) k tk0 p Eon H0 Eq Hlt) as Eonp.
+      destruct (Hshape p tp' Hp) as (tp0 & Hp0 & ->). rewrite Eonp. reflexivity.
+    + destruct (Hshape p tp' Hp) as (tp0 & Hp0 & E).
+      apply (Hcl p tp' Hp tp0 Hp0). exact (gi_anc _ _ GI k tk0 p tp0 H0 Eq Hgp Hp0).
+  - intros k tk' X H HX. destruct (Hshape k tk' H) as (tk0 & H0 & ->).
+    destruct (Hsame (on_path l (Some t) k) tk0) as (E1 & E2 & E3 & E4 & _).
+    unfold tx_ok. rewrite E1, E2, E3. rewrite E4 in HX. exact (gi_ok _ _ GI k tk0 X H0 HX).
+  - intros k tk' p tp' H Hgp Hp. destruct (Hshape k tk' H) as (tk0 & H0 & ->).
+    destruct (Hshape p tp' Hp) as (tp0 & Hp0 & ->).
+    destruct (Hsame (on_path l (Some t) k) tk0) as (E1 & _ & _ & _ & Eg).
+    destruct (Hsame (on_path l (Some t) p) tp0) as (E1' & _).
+    rewrite E1, E1'. rewrite Eg in Hgp. exact (gi_grp _ _ GI k tk0 p tp0 H0 Hgp Hp0).
+  - intros k tk' X H Hc HX. destruct (Hshape k tk' H) as (tk0 & H0 & ->).
+    destruct (Hsame (on_path l (Some t) k) tk0) as (_ & _ & _ & E4 & _). rewrite E4 in HX.
+    destruct (t_open tk0) eqn:Eo.
+    + destruct (on_path l (Some t) k) eqn:Eon; [|congruence].
+      apply (Hnew (list_of tk0) X); [|exact HX].
+      apply -> in_rev. exact (cw_jobs_in l (Some t) k tk0 Eon H0 Eo).
+    + apply Hmono. exact (gi_minv _ _ GI k tk0 X H0 Eo HX).
+  - intros k. unfold l'. rewrite cw_chain. exact (gi_nodup _ _ GI k).
+  - exact Hc'.
+Qed.
+
+Lemma ginv_init : ginv [] new_manager.
+Proof.
+  constructor; try (intros; discriminate).
+  - intros k. constructor.
+  - intros g P H. destruct g; destruct H.
+Qed.
+
+(* ---- one step ---- *)
+
+Definition sinv (st : state) : Prop := ginv (s_trk st) (s_mgr st).
+
+Lemma step_inv win st o :
+  win_ok win -> sinv st -> valid_op win st o -> sinv (fst (step_v v st o)).
+Proof.
+  intros Hw GI Hval. unfold sinv in *. destruct o as [g ts th|p ts th|t txs force|t|t id ts|g id ts];
+    cbn [step_v].
+  - (* NewRoot *)
+    cbn. apply ginv_push; cbn; auto; intros; discriminate.
+  - (* New *)
+    unfold tracker_new. destruct (get (s_trk st) p) as [tp|] eqn:Ep; [|exact GI].
+    cbn [fst s_trk s_mgr]. apply ginv_push; cbn [t_ids t_open t_gparent t_parent t_grp]; auto.
+    + intros p0 Hp0. inversion Hp0; subst p0. exists tp. split; [assumption|split; [reflexivity|]].
+      intro Hn. destruct (t_open tp); [|reflexivity]. cbn in Hn. discriminate.
+    + intros p0 Hp0.
+      destruct (negb (t_open tp) && match t_parent tp with None => true | Some _ => false end);
+        congruence.
+  - (* Add *)
+    unfold tracker_add_v. destruct (get (s_trk st) t) as [tk|] eqn:Et; [|exact GI].
+    destruct (t_open tk) eqn:Eo; [|exact GI]. cbn [negb].
+    destruct (t_ids tk) as [|x xs] eqn:Ei; [|exact GI].
+    destruct Hval as (-> & Hleaf & Htx). specialize (Htx tk eq_refl).
+    destruct (add_loop v st tk false txs [] O) as [[ids cnt] cls] eqn:Ea.
+    cbn [fst s_trk s_mgr].
+    destruct (add_loop_spec st tk txs [] O ids cnt cls (fun p Hp => proj1 (Htx p Hp)) Ea)
+      as (added & -> & Hnd & Hadd).
+    cbn [app] in *.
+    apply (ginv_add _ _ t tk added GI Et Eo Hleaf).
+    + intros X HX. destruct (Hadd X HX) as [Hin _].
+      destruct (Htx _ Hin) as (_ & Hg & Hz & Hwin). cbn [fst snd] in *.
+      destruct (Hw _ _ _ Hwin) as [H1 H2]. unfold tx_ok. auto.
+    + apply NoDup_app_intro.
+      * apply Hnd. constructor.
+      * destruct (t_gparent tk) as [p|]; [exact (gi_nodup _ _ GI p)|].
+        destruct (s_trk st); constructor.
+      * intros X HX Hch. destruct (Hadd X HX) as [_ Hhas]. unfold parent_has_v in Hhas.
+        revert Hhas. apply (has_sound _ _ GI t (t_parent tk) (t_gparent tk) (t_grp tk) X).
+        -- intros p Hp. exact (gi_bound _ _ GI t tk p Et Hp).
+        -- destruct (t_parent tk) as [q|] eqn:Eq.
+           ++ left. symmetry. exact (gi_par _ _ GI t tk q Et Eq).
+           ++ right. split; [reflexivity|]. intros p tp Hp Htp.
+              exact (gi_anc _ _ GI t tk p tp Et Eq Hp Htp).
+        -- intros p tp Hp Htp. exact (gi_grp _ _ GI t tk p tp Et Hp Htp).
+        -- exact Hch.
+  - (* Commit *)
+    unfold tracker_commit. destruct (get (s_trk st) t) as [tk|] eqn:Et; [|exact GI].
+    pose proof (ginv_commit _ _ t tk GI Et) as H.
+    destruct (commit_walk (s_trk st) (Some t)) as [trk js]. exact H.
+  - destruct (tracker_has_v v st t id ts); exact GI.
+  - exact GI.
+Qed.
+
+Lemma run_inv win h : win_ok win -> forall st, sinv st -> hist_ok win st h -> sinv (run_v v st h).
+Proof.
+  intro Hw. induction h as [|o r IH]; intros st GI Hh; [exact GI|].
+  destruct Hh as [Hval Hr]. cbn. apply IH; [|exact Hr]. now apply (step_inv win).
+Qed.
+
+Lemma no_replay_gen win h :
+  win_ok win -> hist_ok win init h -> forall t, NoDup (chain_ids (run_v v init h) t).
+Proof.
+  intros Hw Hh t. apply (gi_nodup _ _ (run_inv win h Hw init ginv_init Hh)).
+Qed.
+
+End Hist.
